@@ -136,4 +136,5 @@ NoUserLiteralSurvives ==
 \* C04 at the level of the design: kept positions stay
 KeepLeaf == Complete /\ GLeaf(CurNT, leaf).lab = "keep"
 KeptPositionsKept == KeepLeaf => \A n \in DOMAIN Cfgs : TargetOut(Cfgs[n]).o = "keep"
+IdemInv == Complete => IdempotentAll(CaseLine)
 =============================================================================
